@@ -3070,7 +3070,7 @@ coap_handle_request_put_block(coap_context_t *context,
 
   if (block.m ||
       !check_all_blocks_in(&lg_srcv->rec_blocks,
-                           (uint32_t)(lg_srcv->total_len + chunk -1)/chunk)) {
+                           (uint32_t)((lg_srcv->total_len + chunk -1)/chunk))) {
     /* Not all the payloads of the body have arrived */
     if (block.m) {
       uint8_t buf[4];
@@ -3078,7 +3078,7 @@ coap_handle_request_put_block(coap_context_t *context,
 #if COAP_Q_BLOCK_SUPPORT
       if (block_option == COAP_OPTION_Q_BLOCK1) {
         if (check_all_blocks_in(&lg_srcv->rec_blocks,
-                                (uint32_t)(lg_srcv->total_len + chunk -1)/chunk)) {
+                                (uint32_t)((lg_srcv->total_len + chunk -1)/chunk))) {
           goto give_app_data;
         }
         if (lg_srcv->rec_blocks.used == 1 &&
@@ -3112,7 +3112,7 @@ coap_handle_request_put_block(coap_context_t *context,
        */
       if (!lg_srcv->no_more_seen ||
           !check_all_blocks_in(&lg_srcv->rec_blocks,
-                               (uint32_t)(lg_srcv->total_len + chunk -1)/chunk)) {
+                               (uint32_t)((lg_srcv->total_len + chunk -1)/chunk))) {
         /* Ask for the next block */
         coap_insert_option(response, block_option,
                            coap_encode_var_safe(buf, sizeof(buf),
